@@ -8,6 +8,8 @@ NOT_YET = {}
 _TB = ("Trusted: Lean kernel + propext/Classical.choice/Quot.sound; hand-written models (checked against the code by the "
        "correspondence engine on every run, not assumed); generators and canonicalisers. ")
 ENGINES = [
+    {"name": "audit", "path": "go/cmd/corr/audit.go", "serves_properties": ["C19"],
+     "kind_free_text": "differential: audit decision/contents/parts through the real serial writer vs Lean model; auditconc: concurrent writers, line integrity"},
     {"name": "memo", "path": "go/cmd/corr/memo.go", "serves_properties": ["C13"],
      "kind_free_text": "history: WAFs sharing strings in different roles built alone vs together; live cache keys checked against the Lean key function"},
     {"name": "iso", "path": "go/cmd/corr/eng.go", "serves_properties": ["C05"],
@@ -57,6 +59,14 @@ CLAIMED = {
              "same strings in different roles built alone vs in shared histories, plus the shape of every live cache key.",
         note=_TB + "The operators themselves are not modelled in this engine (monitor: behaviour alone == behaviour in history).",
         ref="6/C13", engine="memo"),
+    "C19": dict(
+        text="Lean 4 theorems: the audit decision table (Off never, On always, RelevantOnly+pattern iff the pattern matches "
+             "the real, else would-be, else response status; one Bool per ProcessLogging = at most one record); well-formed "
+             "parts (A…Z) stay well-formed under every ctl:auditLogParts modification; the error callback fires exactly once "
+             "per fired rule with logging and never from links; audit messages are exactly the audit-enabled fired rules; a "
+             "file of whole-record appends splits back into exactly the records (no interleaving, none lost). Tied to /repo "
+             "by `audit` (real serial writer, JSON and Native) and `auditconc` (concurrent writers).",
+        note=_ENG_NOTE + " Formatters/encoding/json trusted.", ref="6/C19", engine="audit,auditconc"),
     "C09": dict(
         text="Lean 4 theorems: the state after a link is the left fold of 'update MATCHED_*, then run every non-disruptive "
              "action once' over exactly the link's matches, in order (so once per match, macros expanded at that moment); "
